@@ -233,6 +233,63 @@ fn rotation_body(case: &RotCase, ctx: &mut CaseCtx) -> PropResult {
     roundtrip_body(&f, &mut CaseCtx::default())
 }
 
+#[derive(Clone, Debug, Serialize, Deserialize)]
+pub struct SweepBlock {
+    pub block: u32,
+}
+
+fn sweep_body(b: &SweepBlock, ctx: &mut CaseCtx) -> PropResult {
+    use crate::spec::refbin;
+    use rbx_binary::verif;
+    ctx.nontrivial();
+    let base = b.block << 16;
+    let ints: Vec<i32> = (0..65536u32).map(|i| (base | i) as i32).collect();
+    // scalar laws against the document's formulas
+    for &x in &ints {
+        let t = verif::transform_i32(x);
+        ensure!(t as u32 == refbin::transform32(x), "sweep:transform_i32", "transform_i32({x}) = {t}, docs/binary.md gives {}", refbin::transform32(x));
+        ensure!(verif::untransform_i32(t) == x, "sweep:untransform_i32", "untransform_i32(transform_i32({x})) = {}", verif::untransform_i32(t));
+        ensure!(verif::untransform_i32(x) == refbin::untransform32(x as u32), "sweep:untransform_i32-doc", "untransform_i32({x})");
+        // 64-bit: embed the pattern at both ends of the range
+        for y in [x as i64, (x as i64) << 32 | 0x5a5a_5a5a, i64::MIN.wrapping_add(x as u32 as i64), i64::MAX - (x as u32 as i64)] {
+            let t = verif::transform_i64(y);
+            ensure!(t as u64 == refbin::transform64(y), "sweep:transform_i64", "transform_i64({y})");
+            ensure!(verif::untransform_i64(t) == y, "sweep:untransform_i64", "untransform_i64(transform_i64({y}))");
+        }
+    }
+    // arrays: real writer -> document-derived reader and real reader
+    let bytes = verif::write_interleaved_i32(&ints);
+    let model = refbin::parse_i32_column(&bytes, ints.len()).map_err(|e| Fail::new("sweep:i32-array-doc", e))?;
+    ensure!(model == ints, "sweep:i32-array-doc", "interleaved Int32 array of block {} decodes differently with the document-derived reader", b.block);
+    let back = verif::read_interleaved_i32(&bytes, ints.len()).map_err(|e| Fail::new("sweep:i32-array", e.to_string()))?;
+    ensure!(back == ints, "sweep:i32-array", "interleaved Int32 array of block {} does not round-trip", b.block);
+    let floats: Vec<f32> = ints.iter().map(|x| f32::from_bits(*x as u32)).collect();
+    let bytes = verif::write_interleaved_f32(&floats);
+    let model = refbin::parse_f32_column(&bytes, floats.len()).map_err(|e| Fail::new("sweep:f32-array-doc", e))?;
+    ensure!(
+        model.iter().zip(ints.iter()).all(|(a, b)| *a == *b as u32),
+        "sweep:f32-array-doc",
+        "interleaved Float32 array of block {} decodes differently with the document-derived reader",
+        b.block
+    );
+    let back = verif::read_interleaved_f32(&bytes, floats.len()).map_err(|e| Fail::new("sweep:f32-array", e.to_string()))?;
+    ensure!(
+        back.iter().zip(ints.iter()).all(|(a, b)| a.to_bits() == *b as u32),
+        "sweep:f32-array",
+        "interleaved Float32 array of block {} does not round-trip bit-exactly",
+        b.block
+    );
+    // referent arrays (delta coded) of a short ramp starting anywhere
+    let ramp: Vec<i32> = (0..64).map(|i| ((base as i32) >> 1).wrapping_add(i * 3)).map(|v| v & i32::MAX).collect();
+    let bytes = verif::write_referents(&ramp);
+    let back = verif::read_referents(&bytes, ramp.len()).map_err(|e| Fail::new("sweep:referents", e.to_string()))?;
+    ensure!(back == ramp, "sweep:referents", "referent array does not round-trip");
+    let model = refbin::parse_referent_column(&bytes, ramp.len()).map_err(|e| Fail::new("sweep:referents-doc", e))?;
+    ensure!(model == ramp, "sweep:referents-doc", "referent array decodes differently with the document-derived reader");
+    ctx.add_evals(65535);
+    Ok(())
+}
+
 pub fn run(ctx: &Ctx) -> PropertyReport {
     let mut rep = PropertyReport::new(
         "C01",
@@ -282,6 +339,21 @@ pub fn run(ctx: &Ctx) -> PropertyReport {
             });
         }
         rep.push(ctx.run_list("rotations", cases, true, rotation_body));
+    }
+
+    if sub.runs("scalar-sweep") {
+        // hook H2: the real zig-zag / float rotation / interleaving functions, swept against the
+        // formulas of docs/binary.md. Quick: every 256th block; thorough: all 2^32 inputs.
+        let blocks: Vec<SweepBlock> = if ctx.cfg.replay.is_some() {
+            vec![]
+        } else {
+            let step = ctx.cfg.tier.pick(256u32, 1);
+            (0..65536u32).step_by(step as usize).map(|b| SweepBlock { block: b }).collect()
+        };
+        let exhaustive = ctx.cfg.tier == crate::engine::Tier::Thorough;
+        let mut r = ctx.run_list("scalar-sweep", blocks, exhaustive, sweep_body);
+        r.notes.push("each block covers 65536 consecutive 32-bit patterns through transform/untransform (i32, i64 embedding), the f32 sign rotation and byte interleaving, compared with a decoder written from docs/binary.md".into());
+        rep.push(r);
     }
 
     if sub.runs("deep") {
